@@ -16,7 +16,7 @@ RULE = (
     "non-trivial = some line failed the file / some member is invalid; state = (validity, stopped, record)"
 )
 BOUNDS = {
-    "quick": "13 fail contexts + 8 policy subsets x 2 error programs x 156 files of <=3 records; 5 singles + 20 pairs x 8 files x 6 methods",
+    "quick": "16 fail contexts + 8 policy subsets x 3 error programs x 156 files of <=3 records; 5 singles + 20 pairs x 8 files x 6 methods",
     "thorough": "same programs x all 781 files of <=4 records; singles, pairs, 60 triples x 12 files x 6 methods",
 }
 CHUNK = 150
@@ -49,11 +49,15 @@ CONTEXTS = {
     "no()->fail()": [["->", fn("no"), fn("fail")]],
     "C->fail_all()": [["->", C, fn("fail_all")]],
     "failed()->stop() C->fail()": [["->", fn("failed"), fn("stop")], ["->", C, fn("fail")]],
+    "fail_and_stop(above(add(#1,1),100))": [fn("fail_and_stop", [], [fn("above", [], [fn("add", [], [["h", 1], ["t", 1]]), ["t", 100]])])],
+    "fail_and_stop(above(add(#1,1),1))": [fn("fail_and_stop", [], [fn("above", [], [fn("add", [], [["h", 1], ["t", 1]]), ["t", 1]])])],
+    "stop(above(add(#1,1),100)) C->fail()": [fn("stop", [], [fn("above", [], [fn("add", [], [["h", 1], ["t", 1]]), ["t", 100]])]), ["->", C, fn("fail")]],
 }
 ERR = ["=", ["v", "e"], [], fn("add", [], [["h", 1], ["t", 1]])]
 ERRPROGS = {
     "err": [ERR],
     "err C->fail()": [ERR, ["->", C, fn("fail")]],
+    "fail_and_stop(erroring condition)": [fn("fail_and_stop", [], [fn("above", [], [fn("add", [], [["h", 1], ["t", 1]]), ["t", 100]])])],
 }
 POLICIES = [[f for i, f in enumerate(("fail", "collect", "stop")) if m >> i & 1] for m in range(8)]
 ROWS = {"k": ["k", "1"], "n": ["n", "1"], "K": ["k", "x"], "N": ["n", "x"], "b": []}
